@@ -1,8 +1,8 @@
 //go:build verif
 
-package mhcv
+package mhcv_test
 
-// C19 for Prio3MultihotCountVec. Generic machinery: vdaf/prio3/internal/verifc19 (overlay only); oracles: verifref/prio.
+// C19, exported-API units (package mhcv_test: the compiler guarantees nothing unexported is named) for Prio3MultihotCountVec. Generic machinery: vdaf/prio3/internal/verifc19 (overlay only); oracles: verifref/prio.
 
 import (
 	"fmt"
@@ -10,19 +10,14 @@ import (
 
 	"github.com/cloudflare/circl/internal/verifmc"
 	"github.com/cloudflare/circl/internal/verifref/prio"
-	"github.com/cloudflare/circl/vdaf/prio3/internal/prio3"
 	"github.com/cloudflare/circl/vdaf/prio3/internal/verifc19"
+	"github.com/cloudflare/circl/vdaf/prio3/mhcv"
 )
 
-// c19Evil shares an arbitrary encoded measurement with the real proof system.
-type c19Evil struct{ *flpMultiHotCountVec }
-
-func (c19Evil) Encode(v Vec) (Vec, error) { return append(Vec{}, v...), nil }
-
-func c19Sys() *verifc19.Sys[[]bool, []uint64, Vec, Fp] {
-	return &verifc19.Sys[[]bool, []uint64, Vec, Fp]{
-		Make: func(i prio.Inst, n uint8) (verifc19.VDAF[[]bool, []uint64, Vec, Fp], error) {
-			m, err := New(n, i.Length, i.MaxWeight, i.Chunk, verifc19.Ctx)
+func c19Sys() *verifc19.Sys[[]bool, []uint64, mhcv.Vec, mhcv.Fp] {
+	return &verifc19.Sys[[]bool, []uint64, mhcv.Vec, mhcv.Fp]{
+		Make: func(i prio.Inst, n uint8) (verifc19.VDAF[[]bool, []uint64, mhcv.Vec, mhcv.Fp], error) {
+			m, err := mhcv.New(n, i.Length, i.MaxWeight, i.Chunk, verifc19.Ctx)
 			if err != nil {
 				return nil, err
 			}
@@ -30,17 +25,6 @@ func c19Sys() *verifc19.Sys[[]bool, []uint64, Vec, Fp] {
 				return nil, fmt.Errorf("New returned nil without an error")
 			}
 			return m, nil
-		},
-		MakeEvil: func(i prio.Inst, n uint8) (verifc19.EvilSharder[Vec, Fp], error) {
-			f, err := newFlpMultiCountHotVec(i.Length, i.MaxWeight, i.Chunk)
-			if err != nil {
-				return nil, err
-			}
-			p, err := prio3.New[c19Evil, Vec, []uint64, Vec, Fp, *Fp](c19Evil{f}, 5, n, verifc19.Ctx)
-			if err != nil {
-				return nil, err
-			}
-			return &p, nil
 		},
 		ToM: func(m []uint64) []bool {
 			b := make([]bool, len(m))
@@ -50,7 +34,7 @@ func c19Sys() *verifc19.Sys[[]bool, []uint64, Vec, Fp] {
 			return b
 		},
 		FromA: func(a *[]uint64) []uint64 { return *a },
-		Order: new(Fp).Order(),
+		Order: new(mhcv.Fp).Order(),
 	}
 }
 
